@@ -30,6 +30,11 @@ theorem inv1_onCur {s : St} {c : Gen} (hi : Inv1 s) (ok : GenOK s.cur c) : Inv1 
     have l := ok.routines_le t.1
     exact ⟨ok.closed_mono t.1, fun h0 => by have := t.2 h0; omega⟩
 
+theorem returnsNow_quiet {s : St} {m : String} {e : Option Err} (h : returnsNow s m e = true) : s.pc.quiet = true := by
+  unfold returnsNow at h
+  simp only [Bool.or_eq_true, Bool.and_eq_true, beq_iff_eq] at h
+  rcases h with h | ⟨⟨h | h, _⟩, _⟩ <;> rw [h] <;> rfl
+
 theorem inv1P_live {p : PC} {g : Gen} (hp : p.quiet = false) (hw : ∀ ret r, p ≠ .waiting ret r) (hg : Gen.Inv g) :
     inv1P p g := by
   refine ⟨hg, ?_, ?_⟩
@@ -38,6 +43,16 @@ theorem inv1P_live {p : PC} {g : Gen} (hp : p.quiet = false) (hw : ∀ ret r, p 
 
 theorem inv1_step (c : Cfg) (s s' : St) (e : Ev) (hi : Inv1 s) (h : step c s e = some s') : Inv1 s' := by
   cases e <;> simp only [step] at h
+  case nextGenRet m e =>
+    split at h
+    · rename_i hr
+      have hq := hi.2.1 (returnsNow_quiet hr)
+      have key : ∀ p : PC, p.quiet = true → ∀ s'' : St, s''.pc = p → s''.cur = s.cur → Inv1 s'' := by
+        intro p hp s'' h1 h2
+        refine ⟨by rw [h2]; exact hi.1, fun _ => by rw [h2]; exact hq, ?_⟩
+        intro ret r hw; rw [← h1, hw] at hp; cases hp
+      split at h <;> (cases h; exact key _ rfl _ rfl rfl)
+    · cases h
   case hbCall g gid m => obtain ⟨c, ok, rfl⟩ := onCur_spec _ _ _ _ (genOK_hbCall gid m) h; exact inv1_onCur hi ok
   case hbRet g e => obtain ⟨c, ok, rfl⟩ := onCur_spec _ _ _ _ (genOK_hbRet e) h; exact inv1_onCur hi ok
   case hbExit g => obtain ⟨c, ok, rfl⟩ := onCur_spec _ _ _ _ genOK_hbExit h; exact inv1_onCur hi ok
@@ -132,6 +147,12 @@ def PC.gone : PC → Bool
   | .exiting | .exited => true
   | _ => false
 
+theorem returnsNow_plain {s : St} {m : String} {e : Option Err} (h : returnsNow s m e = true) :
+    s.pc.nb = false ∧ s.pc.memberless = false ∧ s.pc.gone = false := by
+  unfold returnsNow at h
+  simp only [Bool.or_eq_true, Bool.and_eq_true, beq_iff_eq] at h
+  rcases h with h | ⟨⟨h | h, _⟩, _⟩ <;> rw [h] <;> exact ⟨rfl, rfl, rfl⟩
+
 structure Inv2 (c : Cfg) (s : St) : Prop where
   nb : s.needBackoff = true → s.pc.nb = true
   dm : s.pc.memberless = true → s.member = ""
@@ -153,6 +174,24 @@ theorem onCur_eq (s s' : St) (g : Nat) (f : Gen → Option Gen) (h : onCur s g f
 
 theorem inv2_step (c : Cfg) (s s' : St) (e : Ev) (hi : Inv2 c s) (h : step c s e = some s') : Inv2 c s' := by
   cases e <;> simp only [step] at h
+  case nextGenRet m e =>
+    split at h
+    · rename_i hr
+      obtain ⟨p1, _, p3⟩ := returnsNow_plain hr
+      have hnb : s.needBackoff = false := by
+        cases hb : s.needBackoff with
+        | false => rfl
+        | true => have := hi.nb hb; rw [p1] at this; cases this
+      have hex : s.exitWith = none := by
+        cases hx : s.exitWith with
+        | none => rfl
+        | some mb => have := (hi.ex mb.1 mb.2 (by rw [hx])).1; rw [p3] at this; cases this
+      split at h <;> cases h
+      · exact ⟨by simp [hnb], by simp [PC.memberless], by simp [PC.gone], by simp [hex]⟩
+      · exact ⟨by simp [hnb], by simp [PC.memberless], by simp [PC.gone], by simp [hex]⟩
+      · exact ⟨by simp [hnb], by simp [PC.memberless], by simp [PC.gone], by simp [hex]⟩
+      · exact ⟨by simp [PC.nb], by simp [PC.memberless], by simp [PC.gone], by simp [hex]⟩
+    · cases h
   case hbCall g gid m => obtain ⟨cg, rfl⟩ := onCur_eq _ _ _ _ h; exact inv2_onCur hi
   case hbRet g e => obtain ⟨cg, rfl⟩ := onCur_eq _ _ _ _ h; exact inv2_onCur hi
   case hbExit g => obtain ⟨cg, rfl⟩ := onCur_eq _ _ _ _ h; exact inv2_onCur hi
